@@ -20,7 +20,8 @@
 (***************************************************************************)
 EXTENDS AioTG, P_TG, Json
 
-CONSTANTS Ops, MaxOps, MaxEnv, EnvKinds, MaxDepth, Shields, Cleanups, Pres
+CONSTANTS Ops, MaxOps, MaxEnv, EnvKinds, MaxDepth, Shields, Cleanups, Pres,
+          Orders     \* subset of BOOLEAN: iteration orders of the scopes' task / child-scope sets to explore
 
 VARIABLES L,         \* [tg |-> task-group state, ev |-> the shared Event]
           E, hist, pst, pbad
@@ -34,9 +35,10 @@ Tag(n, kind, cl) == [n |-> n, kind |-> kind, cl |-> cl, dl |-> INF]
 Root == 1
 
 Init ==
-  /\ K = KInit([t \in Task |-> IF t = Root THEN <<ClientFrame("init", 0)>>
-                               ELSE <<Frame("tgchild", "init", 0, 0)>>],
-               [t \in Task |-> NOSCOPE])
+  /\ \E rev \in Orders :
+       K = KInitR([t \in Task |-> IF t = Root THEN <<ClientFrame("init", 0)>>
+                                  ELSE <<Frame("tgchild", "init", 0, 0)>>],
+                  [t \in Task |-> NOSCOPE], rev)
   /\ L = [tg |-> TGInit, ev |-> [flag |-> FALSE, waiters |-> <<>>]]
   /\ E = [n |-> 0, pre |-> FALSE, scoped |-> {}, natived |-> {}, qat |-> 0]
   /\ hist = <<>>
